@@ -46,3 +46,12 @@ Print Assumptions C08_region.
 Print Assumptions C08_total.
 (* ... is canonical (C02_canonical applies verbatim to R), and sum(A,B), sum(B,A)
    agree in parity away from the quad edges (C17_same_region with band Qs). *)
+
+(* K3: the orientation test the Minkowski routine relies on (IsPositive64 = Area64 >= 0) as /repo's
+   source has it now: the accumulator of Area64 regenerated from the source equals the model's, and
+   IsPositive64's body is the comparison with 0 *)
+From Coq Require Import String.
+From Clip Require Import Model.Measures Model.KernelOps Gen.Kernels_gen Model.KernelProofs.
+Theorem C08_orientation_from_source : forall p,
+  gen_IsPositive64_body = "return Area64(poly) >= 0"%string /\ IsPositive64_model p = (0 <=? gen_area2 p)%Z.
+Proof. intros p. split; [exact gen_IsPositive64_body_eq|]. rewrite gen_area2_eq. reflexivity. Qed.
